@@ -3,12 +3,15 @@ from harness import gen_tree, spec_tree
 
 MODEL = 'tree'
 RULE = ('seeded random histories: a small resource tree (1-6 handles whose counting loaders return None, '
-        '0, "", False, (), 0.0, b"", fresh [] / {} / object() and objects whose __eq__/__bool__/__len__ raise), '
+        '0, "", False, (), 0.0, b"", fresh [] / {} / object(), objects whose __eq__/__bool__/__len__ raise, whose == is True for everything, '
+        'that are equal but never identical, with duck-typed equality; loaders that RAISE on scripted invocations - '
+        'the 1st, 1st+2nd, 2nd, ... - and are used again afterwards), '
         '0-3 static snapshots, then 3-30 accesses through every access path - h(), m[a/b], m[a][b], '
         'snapshot[a][b], snapshot.a.b - interleaved with Handle.clear(), re-assignments and map clears.  '
         'Observed: which load produced each returned object (identity, never ==), the number of load() calls '
         'and Handle.cached.  Non-trivial: at least one access returned a loaded resource.')
-ASSUMPTIONS = ['loaders do not raise; a loader returning a shared singleton (None, 0, ...) is identified by '
+ASSUMPTIONS = ['a load that raises caches nothing: the next access loads again (loads = invocations that returned, '
+               'tries = all invocations); a loader returning a shared singleton (None, 0, ...) is identified by '
                'the load counter, a loader returning fresh objects by identity']
 TIE = ('hand-written heap model lean/DesperModel/Tree.lean (callH/clearH/cachedH and every access path '
        'reduced to callH), correspondence-checked against desper/model/tree.py on every run')
